@@ -268,6 +268,37 @@ theorem unit_sum_order_independent (l l' : List (Nat × Nat)) (h : l.Perm l') : 
 -- [ms 5, ns 7] and [ns 7, ms 5] both give 5·10⁶ + 7 ns
 example : unitSum [(1000000, 5), (1, 7)] = (1, 5000007) ∧ unitSum [(1, 7), (1000000, 5)] = (1, 5000007) := by decide
 
+/-! ### sample types -/
+
+/-- A sample type survives the merge iff EVERY fetched source has it — so the set of surviving
+types does not depend on the order of the sources (only the order in which they are listed does:
+it is the first source's), nor on where failing sources stand between them. -/
+theorem commonTypes_perm (l l' : List (List Nat)) (h : l.Perm l') (hne : l ≠ []) (t : Nat) :
+    (t ∈ commonTypes l ↔ ∀ s, s ∈ l → t ∈ s) ∧ (t ∈ commonTypes l ↔ t ∈ commonTypes l') := by
+  have key : ∀ m : List (List Nat), m ≠ [] → (t ∈ commonTypes m ↔ ∀ s, s ∈ m → t ∈ s) := by
+    intro m hm
+    cases m with
+    | nil => exact absurd rfl hm
+    | cons f rest =>
+      simp only [commonTypes, List.mem_filter, List.all_eq_true, List.contains_iff_mem, List.mem_cons]
+      constructor
+      · rintro ⟨h1, h2⟩ s (rfl | hs)
+        · exact h1
+        · exact h2 s hs
+      · intro h0
+        exact ⟨h0 f (Or.inl rfl), fun s hs => h0 s (Or.inr hs)⟩
+  have hne' : l' ≠ [] := by
+    intro h0; subst h0; exact hne (List.Perm.eq_nil h)
+  refine ⟨key l hne, ?_⟩
+  rw [key l hne, key l' hne']
+  constructor
+  · intro h0 s hs; exact h0 s (h.mem_iff.2 hs)
+  · intro h0 s hs; exact h0 s (h.mem_iff.1 hs)
+
+-- [samples cpu], [cpu], [cpu samples]: only cpu survives, wherever the middle source stands
+example : commonTypes [[1, 2], [2], [2, 1]] = [2] ∧ commonTypes [[1, 2], [2, 1], [2]] = [2] ∧
+    commonTypes [[1], [2], [3]] = [] := by decide
+
 /-! ### non-vacuity: the hypotheses are met by a non-trivial instance, and the barrier matters -/
 
 -- `MergeSpec` is satisfiable by an order-SENSITIVE merge (concatenation: the free monoid)
